@@ -23,6 +23,9 @@ REQUIRED_THEOREMS = []
 if os.path.exists(os.path.join(vlib.LEAN_DIR, "Yarel", "Props", "C05Tables.lean")):
     THEOREM_MODULES.append("Yarel.Props.C05Tables")
     REQUIRED_THEOREMS += ["rules_order", "infix_defined", "binary_prec_succ_ok"]
+if os.path.exists(os.path.join(vlib.LEAN_DIR, "Yarel", "Props", "SpecTables.lean")):
+    THEOREM_MODULES.append("Yarel.Props.SpecTables")
+    REQUIRED_THEOREMS += ["spec_rules_are_the_sources", "spec_token_kinds_are_the_sources", "spec_precedences_are_the_sources", "spec_limits_are_the_sources"]
 USES_GEN = True
 LEVEL = "proof"
 ASSUMPTIONS = [
@@ -311,8 +314,8 @@ def correspondence(ctx, model_ok=True):
     rng = ctx.rng.fork("c05")
     failures = []
     broken = []
-    n_e = 3000 if ctx.thorough else 400
-    n_c = 3000 if ctx.thorough else 400
+    n_e = 3000 if ctx.thorough else 1200
+    n_c = 3000 if ctx.thorough else 1200
     cases = []
     tags = {}
     for i in range(n_e):
@@ -344,7 +347,7 @@ def correspondence(ctx, model_ok=True):
         c = progs.canon_step(r)
         if (exp is not None and (c[0] != "ok" or list(c[2]) != exp)) or (exp is None and c[0] != "ok"):
             failures.append({"what": "known scenario %s: %s" % (name, c), "program": src, "expected": exp, "signature": "known " + name.split("-")[0], "failing_input": True})
-    gen = progs.generated(rng, ["expr", "control"], 600 if ctx.thorough else 100)
+    gen = progs.generated(rng, ["expr", "control"], 600 if ctx.thorough else 300)
     sd = specdiff.diff(ctx, [(n, s, m) for n, s, m, _ in gen], "C05", broken) if model_ok else {"failures": [], "compared": 0}
     failures += sd["failures"]
     cov = {
